@@ -24,6 +24,8 @@ def pinnedTables : Tables :=
     sdlEmptyTokenSpins := Pinned.sdlEmptyTokenSpins,
     exeVarTypeOptional := Pinned.exeVarTypeOptional,
     opFallbackAnyName := Pinned.opFallbackAnyName,
+    nullVarUsesDefault := Pinned.nullVarUsesDefault,
+    listNotCoerced := Pinned.listNotCoerced, symbolUnchecked := Pinned.symbolUnchecked,
     fieldPosAfterLookahead := Pinned.fieldPosAfterLookahead,
     opErrPosAfterLookahead := Pinned.opErrPosAfterLookahead,
     leafErrNulls := Pinned.leafErrNulls, fastSliceCopies := Pinned.fastSliceCopies }
